@@ -62,8 +62,12 @@ enum L2 {
     IeeeOtherPan,
     /// broadcast PAN id and broadcast short address
     IeeeBroadcast,
+    /// no destination addressing fields at all, source in another PAN (802.15.4: such a frame is
+    /// meant for the coordinator of the SOURCE PAN) - added last so that tape coordinates keep
+    /// their meaning
+    IeeeNoDstOtherPan,
 }
-const L2S: [L2; 9] = [L2::IpMedium, L2::EthOwn, L2::EthOther, L2::EthBroadcast, L2::EthMulticast, L2::IeeeOwn, L2::IeeeOtherStation, L2::IeeeOtherPan, L2::IeeeBroadcast];
+const L2S: [L2; 10] = [L2::IpMedium, L2::EthOwn, L2::EthOther, L2::EthBroadcast, L2::EthMulticast, L2::IeeeOwn, L2::IeeeOtherStation, L2::IeeeOtherPan, L2::IeeeBroadcast, L2::IeeeNoDstOtherPan];
 impl L2 {
     fn name(self) -> &'static str {
         match self {
@@ -76,6 +80,7 @@ impl L2 {
             L2::IeeeOtherStation => "ieee802154-other-station",
             L2::IeeeOtherPan => "ieee802154-other-pan",
             L2::IeeeBroadcast => "ieee802154-broadcast",
+            L2::IeeeNoDstOtherPan => "ieee802154-no-destination-source-in-other-pan",
         }
     }
     fn medium(self) -> Med {
@@ -748,6 +753,9 @@ enum IeeeDst {
     Ext([u8; 8]),
     /// 16-bit short address
     Short(u16),
+    /// destination addressing mode 0: neither destination PAN nor address; `dst_pan` is then the
+    /// SOURCE PAN id, carried in front of the source address
+    Absent,
 }
 
 fn ieee_encode(dst_pan: u16, dst: IeeeDst, src: [u8; 8], seq: u8, ip: &Ip6) -> Vec<u8> {
@@ -756,8 +764,11 @@ fn ieee_encode(dst_pan: u16, dst: IeeeDst, src: [u8; 8], seq: u8, ip: &Ip6) -> V
     let dst_mode: u16 = match dst {
         IeeeDst::Ext(_) => 3,
         IeeeDst::Short(_) => 2,
+        IeeeDst::Absent => 0,
     };
-    let fcf: u16 = 1 | (1 << 6) | (dst_mode << 10) | (1 << 12) | (3 << 14);
+    // PAN id compression only when both PAN ids would be present
+    let comp: u16 = if dst_mode == 0 { 0 } else { 1 << 6 };
+    let fcf: u16 = 1 | comp | (dst_mode << 10) | (1 << 12) | (3 << 14);
     let mut b = vec![];
     b.extend_from_slice(&fcf.to_le_bytes());
     b.push(seq);
@@ -765,6 +776,7 @@ fn ieee_encode(dst_pan: u16, dst: IeeeDst, src: [u8; 8], seq: u8, ip: &Ip6) -> V
     match dst {
         IeeeDst::Ext(a) => b.extend(a.iter().rev()),
         IeeeDst::Short(a) => b.extend_from_slice(&a.to_le_bytes()),
+        IeeeDst::Absent => {}
     }
     b.extend(src.iter().rev());
     // IPHC: 011 TF=11 NH=0 HLIM=00 | CID=0 SAC=0 SAM=00 M DAC=0 DAM=00
@@ -788,7 +800,8 @@ fn ieee_decode(b: &[u8]) -> Result<(u16, IeeeDst, [u8; 8], Vec<u8>), String> {
     if fcf & 7 != 1 {
         return Err("802.15.4: not a data frame".into());
     }
-    if fcf & (1 << 3) != 0 || fcf & (1 << 6) == 0 || (fcf >> 14) & 3 != 3 || (fcf >> 12) & 3 > 1 {
+    let no_dst = (fcf >> 10) & 3 == 0;
+    if fcf & (1 << 3) != 0 || ((fcf & (1 << 6) == 0) != no_dst) || (fcf >> 14) & 3 != 3 || (fcf >> 12) & 3 > 1 {
         return Err(format!("802.15.4: frame control {:#06x} outside the harness profile", fcf));
     }
     let pan = u16::from_le_bytes([b[3], b[4]]);
@@ -812,6 +825,7 @@ fn ieee_decode(b: &[u8]) -> Result<(u16, IeeeDst, [u8; 8], Vec<u8>), String> {
             let v = take(&mut at, 2)?;
             IeeeDst::Short(u16::from_le_bytes([v[0], v[1]]))
         }
+        0 => IeeeDst::Absent,
         m => return Err(format!("802.15.4: destination addressing mode {}", m)),
     };
     let mut src = [0u8; 8];
@@ -1168,6 +1182,7 @@ fn build_packet(c: &Coord, f: &Fill, a: &Addrs, w: &World) -> Pkt {
             L2::IeeeOwn => (OWN_PAN, IeeeDst::Ext(OWN_EXT)),
             L2::IeeeOtherStation => (OWN_PAN, IeeeDst::Ext(OTHER_EXT)),
             L2::IeeeOtherPan => (OTHER_PAN, IeeeDst::Ext(OWN_EXT)),
+            L2::IeeeNoDstOtherPan => (OTHER_PAN, IeeeDst::Absent),
             _ => (0xffff, IeeeDst::Short(0xffff)),
         };
         let mut l2src = PEER_EXT;
@@ -1205,7 +1220,8 @@ fn wellformed(c: &Coord, p: &Pkt, med: Med) -> Result<(), String> {
             let ok = match c.l2 {
                 L2::IeeeOwn => pan == OWN_PAN && dst == IeeeDst::Ext(OWN_EXT),
                 L2::IeeeOtherStation => pan == OWN_PAN && matches!(dst, IeeeDst::Ext(a) if a != OWN_EXT),
-                L2::IeeeOtherPan => pan != OWN_PAN && pan != 0xffff,
+                L2::IeeeOtherPan => pan != OWN_PAN && pan != 0xffff && dst != IeeeDst::Absent,
+                L2::IeeeNoDstOtherPan => pan != OWN_PAN && pan != 0xffff && dst == IeeeDst::Absent,
                 _ => pan == 0xffff && dst == IeeeDst::Short(0xffff),
             };
             if !ok {
@@ -1600,17 +1616,19 @@ fn run_cell(c: &Coord, f: &Fill, ctx: &mut Ctx) -> Result<Vec<Fail>, Fail> {
     let icmp_err = fx.tx.iter().find(|(t, _)| matches!(t, Tx::IcmpError { .. }));
 
     // R1: not addressed to us => no socket changed, nothing emitted
-    let l2_foreign = matches!(c.l2, L2::EthOther | L2::IeeeOtherPan);
+    let l2_foreign = matches!(c.l2, L2::EthOther | L2::IeeeOtherPan | L2::IeeeNoDstOtherPan);
     if l2_foreign || c.dst.not_ours() {
         ctx.label("rule:R1-applies");
         let cls = match c.l2 {
             L2::EthOther => "l2=other-station".to_string(),
             L2::IeeeOtherPan => "l2=ieee802154-other-pan".to_string(),
+            L2::IeeeNoDstOtherPan => "l2=ieee802154-no-destination-source-in-other-pan".to_string(),
             _ => format!("dst={}", dstn),
         };
         let why = match c.l2 {
             L2::EthOther => "the frame is for another station",
             L2::IeeeOtherPan => "the frame is for another PAN",
+            L2::IeeeNoDstOtherPan => "the frame carries no destination and comes from another PAN (it is for that PAN's coordinator)",
             _ => "the IP destination is not an address or group of the interface",
         };
         if tcp_changed {
@@ -1628,7 +1646,7 @@ fn run_cell(c: &Coord, f: &Fill, ctx: &mut Ctx) -> Result<Vec<Fail>, Fail> {
         if med == Med::Ieee {
             // emitted 6LoWPAN frames are not decoded: an answer cannot be told from a neighbour
             // solicitation, except for a foreign PAN where the frame must die at the link layer
-            if c.l2 == L2::IeeeOtherPan && !fx.tx.is_empty() {
+            if matches!(c.l2, L2::IeeeOtherPan | L2::IeeeNoDstOtherPan) && !fx.tx.is_empty() {
                 v.push(Fail::new(format!("R1:frame-emitted:{}", cls), format!("{}, yet {} frame(s) were emitted: {}", why, fx.tx.len(), what)));
             } else if !fx.tx.is_empty() {
                 ctx.label("r1:ieee802154-frames-emitted(not judged)");
